@@ -75,7 +75,7 @@ Vals(s, d) ==
     [] s.k \in {"opt", "eptr"} -> LET X == Vals(s.t, d - 1) IN <<[some |-> FALSE]>> \o [i \in 1..Len(X) |-> [some |-> TRUE, v |-> X[i]]]
     [] s.k = "iface" -> Flatten([j \in 1..Len(s.alts) |->
                            LET X == Vals(s.alts[j].t, d - 1) IN [i \in 1..Len(X) |-> [c |-> s.alts[j].c, v |-> X[i]]]])
-    [] s.k = "u256"  -> <<Num(32, 0), Num(32, 1), MaxU(32), [n |-> FALSE, m |-> [i \in 1..18 |-> IF i < 18 THEN i ELSE 1]],
+    [] s.k = "u256"  -> <<Num(32, 0), Num(32, 1), Num(32, 256), MaxU(32),      \* (1 and 256: their little-endian and big-endian byte orders disagree) [n |-> FALSE, m |-> [i \in 1..18 |-> IF i < 18 THEN i ELSE 1]],
                           Num(32, -1), [n |-> FALSE, m |-> [i \in 1..18 |-> IF i < 18 THEN 0 ELSE 2]]>>
     [] s.k = "time"  -> <<Num(8, 0), Num(8, 1), Mixed(8, TRUE), MaxS(8)>>
 
